@@ -38,6 +38,20 @@ CHECKS = {
         "note": "Virtual time; fakes; cron unreachable (croniter absent); the scheduled time of the first run is read from the real function at enqueue time and checked against deferred_until / the (now, now+p] window.",
         "ref": "DESIGN.md 5/C06",
     },
+    "C09": {
+        "level": "exploration",
+        "technique": "runtime monitoring: synchronous in-flight counter at actor entry/exit + bounded-progress (makespan, refill) oracle on a virtual clock",
+        "text": "Real Workers with tasks_limit 1/2/3/10/1000 over 1-3 queues sharing the limit, four duration profiles, failures, and four arrival patterns (all before start, bursts while saturated, enqueued at the very instant an actor finishes, trickle) on three brokers: at every actor entry the exact number of invocations in progress must be <= the limit; all jobs must be executed within a computed makespan bound (a stalled or dead-locked worker is a violation with the task dump), and a freed slot with backlog must be refilled within 3 s of virtual time.",
+        "note": "'Eventually' is restated as bounded progress in virtual time; fakes for Redis/RabbitMQ.",
+        "ref": "DESIGN.md 5/C09",
+    },
+    "C10": {
+        "level": "exploration",
+        "technique": "runtime monitoring: actor-start counter per Worker.run, return watchdog in virtual time, post-run broker-state audit of the leftovers; plugin driven through enqueue sequences",
+        "text": "Workers with messages_limit M in {1,2,5} face backlogs M+1, 3M, 50 (and exactly M with more work arriving 0.5 s after the M-th completion), actor durations 0..6 s, tasks_limit 1/M/1000, 1-3 queues, three brokers: starts <= M, run() returns, never-started messages are still waiting with an unchanged retry counter. RunWorkerOnEnqueueModifier (M=1) is driven through random enqueue sequences (ok, failing with retry, delayed, unrelated): after each enqueue returns the job ran exactly once.",
+        "note": "The known overshoot mechanisms are keyed by when the extra executions start relative to the M-th completion, so a different overshoot (e.g. work picked up long after the limit was hit) is still reported.",
+        "ref": "DESIGN.md 5/C10",
+    },
     "C12": {
         "level": "exploration",
         "technique": "runtime monitoring: expiry oracle over observed actor-start and first-seen-dead instants (per-loop-iteration state probe) on a virtual clock with exact boundary placement",
